@@ -42,6 +42,12 @@ class Accum(frames._Generic):
     def __init__(self):
         self.pieces = []
         self.shape = (SV(ctx().fresh("n_cleaned", "Int")), 20)
+        self.index_reset = False
+
+    def reset_index(self, drop=False, inplace=False, **k):
+        if not (drop and inplace):
+            raise sym.Unsupported("reset_index form on the accumulated table")
+        self.index_reset = True
 
 
 class PDStub:
